@@ -761,6 +761,9 @@ func genJSONText(r *vlib.Rng, ty string) string {
 	case "ptr":
 		return inn()
 	case "struct":
+		if r.Chance(6) { // the zero struct and its empty-but-not-nil relatives
+			return string(unhx(vlib.Pick(r, zeroToks["struct"])))
+		}
 		var cs []string
 		n := r.Intn(4)
 		for i := 0; i < n; i++ {
@@ -1089,6 +1092,109 @@ func (g *gen) randomCase() {
 	}
 }
 
+// zero / non-zero value tokens of every instantiation (zeroCases). The Go zero value first, then the
+// "other" zeros (negative zero, empty-but-not-nil, zero elements).
+var zeroToks = map[string][]string{
+	"string": {"-"}, "bytes": {"-"},
+	"int8": {"0"}, "int16": {"0"}, "int32": {"0"}, "int64": {"0"}, "int": {"0"},
+	"uint8": {"0"}, "uint16": {"0"}, "uint32": {"0"}, "uint64": {"0"}, "uint": {"0"},
+	"float32": {"0", "2147483648"}, "float64": {"0", "9223372036854775808"},
+	"bool":   {jtok("false")},
+	"struct": {jtok(`{"a":0,"b":"","c":null,"d":null,"e":null,"f":false}`), jtok(`{"a":0,"b":"","c":[],"d":{},"e":{"x":0,"y":null},"f":false}`), jtok(`{"a":0,"b":"","c":[0],"d":{"":0},"e":{"x":0,"y":[""]},"f":false}`)},
+	"map":    {jtok("null"), jtok("{}"), jtok(`{"":0}`)},
+	"slice":  {jtok("null"), jtok("[]"), jtok(`[""]`), jtok(`["",""]`)},
+	"ptr":    {jtok("null"), jtok(`{"x":0,"y":null}`), jtok(`{"x":0,"y":[]}`)},
+}
+var nonZeroTok = map[string]string{
+	"string": "61", "bytes": "01",
+	"int8": "7", "int16": "7", "int32": "7", "int64": "7", "int": "7",
+	"uint8": "7", "uint16": "7", "uint32": "7", "uint64": "7", "uint": "7",
+	"float32": "1065353216", "float64": "4607182418800017408",
+	"bool":   jtok("true"),
+	"struct": jtok(`{"a":1,"b":"b","c":[1],"d":{"k":1},"e":{"x":1,"y":["y"]},"f":true}`),
+	"map":    jtok(`{"k":1}`), "slice": jtok(`["a"]`), "ptr": jtok(`{"x":1,"y":["y"]}`),
+}
+
+// zeroCases: the Go zero value (and its relatives) of EVERY instantiation through Value() and Scan(), both
+// ways round: a zero stored value into a non-zero (valid / invalid) receiver, a non-zero stored value into
+// a zero receiver, an invalid zero column, harness-sealed all-zero plaintexts.  (The random streams draw a
+// zero only now and then, and never an all-zero struct.)
+func (g *gen) zeroCases() {
+	out := g.out
+	const key = "30313233343536373839616263646566"
+	const nonce = "000000000000000000000001"
+	for _, ty := range encTypes {
+		nz := nonZeroTok[ty]
+		for _, z := range zeroToks[ty] {
+			out.Line("new enc %s %s", ty, key)
+			out.Line("set %s 1", z)
+			out.Line("value")
+			out.Line("value2")
+			out.Line("scan stored bytes")
+			out.Line("set %s 1", nz)
+			out.Line("scan stored string")
+			out.Line("set %s 0", nz)
+			out.Line("scan stored bytes")
+			out.Line("value") // the column as restored by Scan (e.g. a nil []byte)
+			out.Line("set %s 0", z)
+			out.Line("value")
+			out.Line("scan stored bytes")
+			out.Line("set %s 1", nz)
+			out.Line("value")
+			out.Line("set %s 1", z)
+			out.Line("scan stored bytes")
+			out.Line("set %s 1", nz)
+			switch w := width(ty); {
+			case w > 0:
+				out.Line("scan pt:%s:%s bytes", strings.Repeat("00", w), nonce)
+				out.Line("set %s 0", nz)
+				out.Line("scan pt:%s:%s string", strings.Repeat("00", w+1), nonce)
+				out.Line("set %s 1", nz)
+				out.Line("scan pt:%s:%s bytes", strings.Repeat("00", w-1), nonce)
+			case ty == "string" || ty == "bytes":
+				out.Line("scan pt:-:%s bytes", nonce)
+				out.Line("set %s 0", nz)
+				out.Line("scan pt:-:%s string", nonce)
+				out.Line("set %s 1", nz)
+				out.Line("scan pt:00:%s bytes", nonce)
+			default:
+				out.Line("scan pt:%s:%s bytes", z, nonce)
+				out.Line("set %s 0", nz)
+				out.Line("scan pt:%s:%s string", jtok("null"), nonce)
+				out.Line("set %s 1", nz)
+				out.Line("scan pt:-:%s bytes", nonce)
+			}
+		}
+	}
+	for _, ty := range jsonTypes {
+		nz := nonZeroTok[ty]
+		for _, z := range zeroToks[ty] {
+			out.Line("new json %s", ty)
+			out.Line("set %s 1", z)
+			out.Line("value")
+			out.Line("scan stored bytes")
+			out.Line("set %s 1", nz)
+			out.Line("scan stored string")
+			out.Line("set %s 0", nz)
+			out.Line("scan stored bytes")
+			out.Line("set %s 0", z)
+			out.Line("value")
+			out.Line("scan nil")
+			out.Line("set %s 1", nz)
+			out.Line("value")
+			out.Line("set %s 1", z)
+			out.Line("scan stored bytes")
+			out.Line("set %s 1", nz)
+			out.Line("scan raw:%s bytes", jtok("null"))
+			out.Line("value") // e.g. a nil []byte / nil map that is Valid
+			out.Line("set %s 0", nz)
+			out.Line("scan raw:%s string", jtok("null"))
+			out.Line("scan raw:- bytes")
+			out.Line("scan raw:- string")
+		}
+	}
+}
+
 func genAll(tier string, out *vlib.Out) {
 	g := &gen{r: vlib.NewRng(vlib.Seed()), out: out, tier: tier}
 	r := g.r
@@ -1110,6 +1216,7 @@ func genAll(tier string, out *vlib.Out) {
 			out.Line("%s", l)
 		}
 	}
+	g.zeroCases()
 	thorough := tier == "thorough"
 	// 1. corruption stream on a genuine ciphertext of every type: every single-bit flip for the
 	// fixed-width types (thorough: for all), every truncation length for all
